@@ -19,7 +19,7 @@ def Q(checks, timeout=240, shards=1, **kw):
     return d
 
 
-HOOK_COMMITS = ["df50802", "215f985"]
+HOOK_COMMITS = ["df50802", "215f985", "cfbf92c"]
 
 NOT_APPLICABLE = {}
 
@@ -233,14 +233,16 @@ PROPS = {
     "C15": dict(
         pkg="c15", level="exploration",
         tests=[T("TestC15", Q(20000), Q(100000, timeout=900, shards=8)),
-               T("TestC15Exhaustive", Q(0, timeout=300), Q(0, timeout=2400))],
+               T("TestC15Exhaustive", Q(0, timeout=300), Q(0, timeout=2400)),
+               T("TestC15Worker", Q(2, timeout=300, shards=2, shrinktime="10s"), Q(12, timeout=900, shards=8, shrinktime="30s"))],
         rule="2-3 real table.Manager instances (distinct node ids) over one gated metadata store backed by the real kv.LFSM (real compare-and-set rule); each runs a generated program of 1-4 calls LeaseTable(+1h) / "
              "LeaseTable(-1h, already expired) / ReturnTable; a rapid-drawn schedule releases ONE parked store read/write at a time, so interleavings are at the granularity of individual metadata-store operations and executions are "
              "deterministic. Ghost state: a node holds from a successful LeaseTable(+1h) until its own successful ReturnTable or LeaseTable(-1h). Invariants: never two holders; a successful lease write found the record unclaimed / own / expired "
              "at the write point; a successful ReturnTable removed the caller's own record; a holder's record names it and is unexpired at the end. TestC15Exhaustive enumerates ALL schedules (each exactly once, DFS over choice points) for every pair of "
              "programs with up to 2 calls (quick) / 3 calls (thorough) on 2 nodes. Non-trivial iff a store operation of one call lies strictly between the first and last store operation of another node's call. Distinct = sha256 of (programs, schedule).",
         assumptions=["lease durations are +-1 hour so wall-clock time never decides an outcome", "clock skew between nodes is outside the statement",
-                     "the gated store re-states kv.RaftStore's Set/Delete result decoding (version mismatch mapping) around the real LFSM"],
+                     "the gated store re-states kv.RaftStore's Set/Delete result decoding (version mismatch mapping) around the real LFSM",
+                     "TestC15Worker depends on real time: its verdict is one-sided (a starved process can only turn a violation into 'inconclusive')"],
         technique="schedule exploration (random + exhaustive enumeration for small bounds) with a harness-owned scheduler, ghost-state invariants",
         level_text="Random schedules for 2-3 nodes x up to 4 calls, and complete enumeration of all interleavings for 2 nodes x up to 2 (quick) / 3 (thorough) calls.",
         level_note="Trusted: the gate scheduler (one runnable caller at a time); the real LFSM implements the CAS.",
@@ -256,7 +258,7 @@ PROPS = {
              "after VerifReconcile the NodeHost's running table shards == catalogued ids. Non-trivial iff a name that held data was deleted and re-created, or a restore happened between creates. "
              "TestC14Odd: same with names that look like metadata paths / globs (x/y, a/lease, sys/idseq, *, [a]); failures after such an action are attributed to the listed name-collision finding. "
              "TestC14Race: 2-3 real Managers over one gated LFSM store racing VerifCreateRecord / DeleteTable (1-3 calls each) under rapid-drawn schedules at store-operation granularity; oracle: ids never reused, never two successful creates of a live name, "
-             "store catalogue only holds acknowledged tables (non-trivial iff two creators both passed the existence check before either wrote). TestC14Diff: diffTables on generated catalogue (ids incl. 0, <=10000, recover ids) x running-shard sets; "
+             "store catalogue only holds acknowledged tables (non-trivial iff two creators both passed the existence check before either wrote); in a third of the cases two writes parked at the same time are applied by ONE Update call of the metadata state machine. TestC14Diff: diffTables on generated catalogue (ids incl. 0, <=10000, recover ids) x running-shard sets; "
              "oracle: start == catalogued minus running, stop == running minus catalogued, ids > 10000 only (non-trivial iff both sets non-empty). Distinct = sha256 of case JSON.",
         assumptions=["single-node engine for the sequential part; concurrency is explored on the gated store only", "table names with '/' or glob syntax are a listed known finding"],
         technique="stateful model-based property testing on a real engine + schedule exploration on a gated store + pure-function property test of the reconcile diff",
